@@ -140,6 +140,7 @@ class Memory:
         m.regions = self.regions
         m.written = set(self.written)
         m.soft = list(self.soft) if self.soft is not None else None
+        m.log = list(self.log) if self.log is not None else None
         m.outside_fn = self.outside_fn
         return m
 
@@ -204,6 +205,8 @@ class Memory:
         if reg is None or not reg.w:
             raise Violation("oob-write", "write of %d bytes at 0x%x %s" % (hi - lo, addr + lo, "outside every declared region" if reg is None else "to read-only region " + reg.name), insn)
         reg.stores += 1
+        if self.log is not None:
+            self.log.append(("store", addr + lo, hi - lo, repr(insn)))
         for i in range(lo, hi):
             if active is not None and not active[i]:
                 continue
